@@ -142,7 +142,7 @@ func flat(run *Run, s *Snap) []string {
 			cp = u(a.CP)
 		}
 		add(zi(l), zi(a.Owner), z(a.Start), z(a.Exp), z(a.Size), zi(a.Data), zi(a.Parity), u(a.WP), u(a.MTC), u(a.MB), u(a.MTV),
-			b2z(a.TPE), z(a.Used), z(a.Tot), z(a.Open), z(a.Succ), z(a.Fail), cp, b2z(a.HasChNode), zi(len(a.BAs)))
+			b2z(a.TPE), z(a.Used), z(a.Tot), z(a.Open), z(a.Succ), z(a.Fail), cp, b2z(a.HasChNode), z(a.TU), zi(len(a.BAs)))
 		for _, d := range a.BAs {
 			add(zi(d.Blobber), z(d.Size), u(d.WP), u(d.RP), u(d.CPIV), u(d.ChReward), u(d.Penalty), u(d.Returned), u(d.ReadRew),
 				z(d.Used), z(d.LF), z(d.LS), z(d.Tot), z(d.Open), z(d.Succ), z(d.Fail), zi(d.Root))
@@ -202,9 +202,16 @@ func flat(run *Run, s *Snap) []string {
 
 func coqCase(run *Run) string {
 	var ops, obs []string
+	tu := run.Init.TU
 	for _, st := range run.Steps {
-		ops = append(ops, fmt.Sprintf("(%d, %d, %s)", st.Now, st.Round, st.Model))
+		ops = append(ops, fmt.Sprintf("(EvTxn (%d, %d, %s))", st.Now, st.Round, st.Model))
 		obs = append(obs, vh.Pair(vh.Bool(st.OK), vh.List(digest(st.Post))))
+		if st.Post.TU != tu {
+			// the stored configuration carries a new time unit (update_settings / commit_settings_changes)
+			tu = st.Post.TU
+			ops = append(ops, fmt.Sprintf("(EvTimeUnit %d)", tu))
+			obs = append(obs, vh.Pair(vh.Bool(true), vh.List(digest(st.Post))))
+		}
 	}
 	refs := append([]int{}, run.Track...)
 	sort.Ints(refs)
